@@ -232,8 +232,9 @@ def check_flatten(run, A):
         prods = [e.term for e in g.events if e.kind == 'call' and is_call_to(e.term, 'numpy.prod')]
         # the 2-D working shape groups exactly the moved axes: its extents derive from the NUMBER of requested axes
         # (len(axis) / len(tmp_axis)), not from a fixed count of trailing axes
-        mv0 = [e.term for e in g.events if e.kind == 'call' and is_call_to(e.term, 'numpy.moveaxis')]
-        rsh = [e.term for e in g.events if e.kind == 'call' and is_call_to(e.term, 'numpy.reshape') and mv0 and strip_views(call_arg(e.term, 0)) is mv0[0]]
+        mv_all = [e.term for e in g.events if e.kind == 'call' and is_call_to(e.term, 'numpy.moveaxis')]
+        rsh = [e.term for e in g.events if e.kind == 'call' and is_call_to(e.term, 'numpy.reshape') and any(strip_views(call_arg(e.term, 0)) is m_ for m_ in mv_all)]
+        mv0 = [m_ for m_ in mv_all if rsh and strip_views(call_arg(rsh[0], 0)) is m_]
         if not mv0 or not rsh:
             raise AnalysisError(f'{name}: moveaxis / reshape to the 2-D working array not found')
         ws = strip_views(call_arg(rsh[0], 1, 'newshape'))
@@ -281,18 +282,48 @@ def check_flatten(run, A):
                           'np.prod of an empty shape slice is the float 1.0; used as a reshape dimension it raises TypeError (sibling lorenz_mask passes dtype=np.int64)',
                           construct=f'R-API::{q}::prod-dtype')
         # restore: moveaxis(mask.reshape(shape), tmp_axis, axis) mirrors moveaxis(x, axis, tmp_axis)
-        mv = [e.term for e in g.events if e.kind == 'call' and is_call_to(e.term, 'numpy.moveaxis')]
-        ok = len(mv) >= 2
-        if ok:
-            fwd, back = mv[0], mv[-1]
-            ok = strip_views(call_arg(fwd, 1)) is strip_views(call_arg(back, 2)) and strip_views(call_arg(fwd, 2)) is strip_views(call_arg(back, 1))
+        def names_axis(x):
+            # the caller's axis numbers themselves (not merely their count)
+            stack, seen = [x], set()
+            while stack:
+                y = stack.pop()
+                if not isinstance(y, T) or y.id in seen:
+                    continue
+                seen.add(y.id)
+                if y.op == 'param' and y.args[0] == 'axis':
+                    return True
+                if is_call_to(y, 'builtin.len'):
+                    continue
+                for a in y.args:
+                    for z in (a if isinstance(a, tuple) else (a,)):
+                        for w in (z if isinstance(z, tuple) else (z,)):
+                            if isinstance(w, T):
+                                stack.append(w)
+            return False
+        fwd = mv0[0]
+        backs = [m_ for m_ in mv_all if call_arg(m_, 2) is not None and names_axis(call_arg(m_, 2)) and not names_axis(call_arg(m_, 1))]
+        n_restore = 0
+        for back in backs:
             rs = strip_views(call_arg(back, 0))
-            ok = ok and is_call_to(rs, 'method:reshape', 'numpy.reshape')
-            if ok:
+            mirrored = strip_views(call_arg(fwd, 1)) is strip_views(call_arg(back, 2)) and strip_views(call_arg(fwd, 2)) is strip_views(call_arg(back, 1))
+            if is_call_to(rs, 'method:reshape', 'numpy.reshape'):
                 shp = call_arg(rs, 1)
-                ok = shp is not None and strip_views(shp).op == 'attr' and strip_views(shp).args[1] == 'shape' and strip_views(shp).args[0] is fwd
-        run.check(ok, 'R-ELL', f'{name}: flatten is restored (reshape to the saved shape, axes moved back)', fn.loc(), '',
-                  'the result is not reshaped to the shape saved after moveaxis and moved back with the swapped (tmp_axis, axis) pair', construct=f'R-ELL::{q}::restore')
+                ok = mirrored and shp is not None and strip_views(shp).op == 'attr' and strip_views(shp).args[1] == 'shape' and strip_views(shp).args[0] is fwd
+                n_restore += 1
+                run.check(ok, 'R-ELL', f'{name}: flatten is restored (reshape to the saved shape, axes moved back)', fn.loc(back.node), '',
+                          'the result is not reshaped to the shape saved after moveaxis and moved back with the swapped (tmp_axis, axis) pair', construct=f'R-ELL::{q}::restore')
+            elif rs.op in ('list', 'tuple', 'comp') or (is_call_to(rs, 'numpy.array', 'numpy.stack', 'numpy.asarray') and strip_views(call_arg(rs, 0)).op in ('list', 'tuple', 'comp')):
+                ax_ = call_arg(rs, None, 'axis') if rs.op == 'call' else None
+                run.violation('R-ELL', f'{name}: axes are moved back on an array of the rank they were given for', fn.loc(back.node),
+                              f'`{norm_stmt(back.node)}` moves axes to the positions named by the caller on a STACK of results: the stack has one more '
+                              f'{"leading " if ax_ is None else ""}axis than the input, every non-negative entry of `axis` now names the axis before the one that was meant',
+                              construct=f'R-ELL::{q}::restore-on-stack')
+            else:
+                run.unresolved('R-ELL', f'{name}: axes are moved back on an array of the rank they were given for', fn.loc(back.node),
+                               f'`{norm_stmt(back.node)}`: the operand is not the working array reshaped to the saved shape')
+        if not n_restore:
+            run.check(False, 'R-ELL', f'{name}: flatten is restored (reshape to the saved shape, axes moved back)', fn.loc(), '',
+                      'the result is not reshaped to the shape saved after moveaxis and moved back with the swapped (tmp_axis, axis) pair', construct=f'R-ELL::{q}::restore')
         # levels 0.5 +/- weight / 2
         lv = [t for e in g.events if e.term is not None for t in walk_terms(e.term) if t.op == 'binop' and t.args[0] == 'Add' and const_val(t.args[1]) == 0.5]
         okl = False
@@ -384,6 +415,8 @@ def check(run):
     check_none_use(run, A, ('pb_bss.extraction.mask_module',))
     check_argument_names(run, A, ('pb_bss.extraction.mask_module',))
     check_stale_loop_variables(run, A, ('pb_bss.extraction.mask_module',))
+    from ..opt import check_extent_loops
+    check_extent_loops(run, A, ('pb_bss.extraction.mask_module',))
     check_forwarding(run, A, ('pb_bss.extraction.mask_module',))
     check_params_reach(run, A, ('pb_bss.extraction.mask_module',))
     check_optional_truthiness(run, A, ('pb_bss.extraction.mask_module',))
